@@ -92,6 +92,8 @@ Fixpoint hist_run (p : pmt) (script : list val) : option (list val) :=
       match hist_run p' t with Some r => Some (VL [VL []; vpmt p'] :: r) | None => None end
     | None => None
     end
+  | VL [VI 2%Z] :: t =>        (* the caller holds on to ElementaryStreams(): no effect on a value *)
+    match hist_run p t with Some r => Some (VL [VL []; vpmt p] :: r) | None => None end
   | _ => None
   end.
 
